@@ -21,6 +21,7 @@ type Scope struct {
 	old   *State
 	pkg   *types.Package
 	loop  *Loop
+	pos   token.Pos // source position the expression is evaluated at (ensures_local: the return statement), for resolving same-named locals
 	depth int
 	nq    *int
 	inOld bool
@@ -368,7 +369,7 @@ func (sc *Scope) lookupLocal(name string) *ssa.Alloc {
 		return cands[0]
 	}
 	// disambiguate by lexical scope at the loop position
-	pos := token.NoPos
+	pos := sc.pos
 	if sc.loop != nil {
 		pos = sc.loop.Pos
 		// names are resolved as seen from inside the loop body (the loop's own variables are declared after the `for` keyword)
